@@ -34,6 +34,19 @@ DecodeVector ==
 
 EmitDecode == mode = "decode" => PrintT(ToJson(DecodeVector))
 
+\* The API forms through which the value `val` can be given to a <data> member.
+\* Each is documented (dynamic_array_ref reference) to leave the container with
+\* size() = Len(val) and these elements, i.e. the same length prefix and payload:
+\* one "data" step of the script stands for any of them.
+DataForms(val) ==
+  <<"assign_range", "assign_it", "assign_input_it", "resize_then_set", "resize_v_then_set",
+    "clear_push_back", "clear_insert_end", "clear_insert_range", "assign_n_then_set">>
+  \o (IF Len(val) = 0 THEN <<"clear", "resize_0", "resize_0_default_init", "assign_empty_ilist">> ELSE <<>>)
+  \o (IF Len(val) >= 1 /\ Len(val) <= 3 THEN <<"assign_ilist">> ELSE <<>>)
+  \o (IF Len(val) >= 1 /\ \A i \in 1 .. Len(val) : val[i] = val[1] THEN <<"assign_n">> ELSE <<>>)
+  \o (IF \A i \in 1 .. Len(val) : val[i] # 0 THEN <<"assign_string">> ELSE <<>>)
+  \o (IF Len(val) >= 2 THEN <<"assign_tail_then_insert_front">> ELSE <<>>)
+
 \* one vector per encode transition: pre-state, step with its arguments,
 \* post-state.  (the post-state is the operational one; StepRefines has
 \* checked it equal to the denotational one in the pre-state)
@@ -47,6 +60,7 @@ StepInfo(st) ==
       val |-> CASE st.op = "set" -> LeafVal(sh, st.li, st.k, st.ip, LLeaves[st.li][st.k])
                 [] st.op = "data" -> DataVal(sh, st.li, st.k, st.ip)
                 [] OTHER -> <<>>,
+      forms |-> IF st.op = "data" THEN DataForms(DataVal(sh, st.li, st.k, st.ip)) ELSE <<>>,
       n |-> IF st.op = "ghdr" THEN Cnt(sh, ChildLi(MI, st.li, st.k), st.ip) ELSE 0,
       ret |-> CASE st.op = "mhdr" -> V0
                 [] st.op = "ghdr" -> OpGroupOf(buf, st.li, st.ip, st.k)
